@@ -287,10 +287,10 @@ theorem compile_print (files : String → Option String) (f : Nat) (name src : S
     (hw : WFSpec s) (hfile : files name = some src) (hlex : lex src = some (prSpec s)) :
     compileFile files (f+1) name = some s := compileFile_prSpec files f name src s hw hfile hlex
 
-/-- `compileFile` is: lex, parse, assemble with the included files compiled one level down -/
+/-- `compileFile` is: lex and parse (`parseSource`; for a text that lexes: `parseMal` of its tokens), assemble with the included files compiled one level down -/
 theorem compileFile_unfold (files : String → Option String) (f : Nat) (name : String) :
     compileFile files (f+1) name =
-      (files name).bind fun src => ((lex src).bind parseMal).bind (assemble (compileFile files f)) :=
+      (files name).bind fun src => (parseSource src).bind (assemble (compileFile files f)) :=
   compileFile_succ files f name
 
 /-- include flattening: de-duplicating what an included file contributed first changes nothing … -/
